@@ -4,6 +4,7 @@ From Coq Require Import List NArith ZArith Bool Lia.
 Import ListNotations.
 From JB Require Import Constants Bytes Utf8 Num NumProofs Value Codec Order OrderProofs CodecProofs RoundtripProofs DispatchProofs
   TreeOps Path PathSem Dispatch Walk WalkProofs CompareWalk CompareWalkProofs SelWalk.
+From JB Require TreeWf ModeProofs.
 Open Scope N_scope.
 Set Default Timeout 120.
 
@@ -411,3 +412,281 @@ Proof.
   - destruct Hm as (Hc & _). rewrite Hc.
     destruct p; cbn [res_rel]; try constructor; try exact D; constructor.
 Qed.
+
+(* ---------------------------------------------------------------- the result writers (C15 / C17) *)
+Lemma placed_slice bs x off : placed bs x off -> slice_p bs off (lenN (payload x)) = Ok (payload x).
+Proof. intros (A & B & -> & ->). apply slice_p_in; reflexivity. Qed.
+
+Lemma scalar_entry_word x : wf_size x = true -> N.lor (tag_of x) (u32 (lenN (payload x))) = word x.
+Proof. intros H. rewrite (word_eq x H). rewrite u32_small; [reflexivity|]. pose proof (payload_small x H). lia. Qed.
+
+Lemma empty_payload (p : list N) : (0 <? lenN p) = false -> p = [].
+Proof. intros E. apply N.ltb_ge in E. destruct p; [reflexivity|rewrite lenN_cons in E; lia]. Qed.
+
+(* build_values copies out the complete document of every denoted item and pushes the running ends *)
+Theorem build_values_w_den bs poses items : Forall2 (den bs) poses items ->
+  forall data offs, build_values_w bs poses data offs = Ok (build_values data items offs).
+Proof.
+  induction 1 as [|pos x poses items D HF IH]; intros data offs; cbn [build_values_w build_values]; [reflexivity|].
+  destruct D as (Hw & Hn & Hm). pose proof (wfb_size x Hw) as Hs. destruct pos as [off len|ty off len].
+  - destruct Hm as (Hc & Hp & ->). rewrite (placed_slice bs x off Hp). cbn [bind].
+    rewrite <- (container_doc x Hc). apply IH.
+  - destruct Hm as (Hc & -> & Hp & ->). rewrite (scalar_entry_word x Hs).
+    assert (E : (if 0 <? lenN (payload x)
+                 then do p <- slice_p bs off (lenN (payload x)); Ok ((data ++ be32 SCALAR_CONTAINER_TAG ++ be32 (word x)) ++ p)
+                 else Ok (data ++ be32 SCALAR_CONTAINER_TAG ++ be32 (word x))) = Ok (data ++ enc x)).
+    { rewrite (scalar_doc x Hc). destruct (0 <? lenN (payload x)) eqn:E0.
+      - rewrite (placed_slice bs x off Hp). cbn [bind]. rewrite <- !app_assoc. reflexivity.
+      - rewrite (empty_payload _ E0), app_nil_r. reflexivity. }
+    rewrite E. cbn [bind]. apply IH.
+Qed.
+
+Lemma array_parts_w_den bs poses items : Forall2 (den bs) poses items ->
+  array_parts_w bs poses = Ok (map word items, flat_map payload items).
+Proof.
+  induction 1 as [|pos x poses items D HF IH]; cbn [array_parts_w map flat_map]; [reflexivity|].
+  destruct D as (Hw & Hn & Hm). pose proof (wfb_size x Hw) as Hs. destruct pos as [off len|ty off len].
+  - destruct Hm as (Hc & Hp & ->). rewrite (placed_slice bs x off Hp), IH. cbn [bind].
+    replace CONTAINER_TAG with (tag_of x) by (destruct x; try discriminate Hc; reflexivity).
+    rewrite (scalar_entry_word x Hs). reflexivity.
+  - destruct Hm as (Hc & -> & Hp & ->). rewrite (scalar_entry_word x Hs).
+    assert (E : (if 0 <? lenN (payload x) then slice_p bs off (lenN (payload x)) else Ok []) = Ok (payload x)).
+    { destruct (0 <? lenN (payload x)) eqn:E0; [apply (placed_slice bs x off Hp)|rewrite (empty_payload _ E0); reflexivity]. }
+    rewrite E, IH. reflexivity.
+Qed.
+Lemma Forall2_lenN {A B} (R : A -> B -> Prop) l l' : Forall2 R l l' -> lenN l = lenN l'.
+Proof. induction 1 as [|x y l l' _ _ IH]; [reflexivity|]. rewrite !lenN_cons, IH. reflexivity. Qed.
+
+(* build_scalar_array writes exactly the encoding of the array of the denoted items *)
+Theorem build_scalar_array_w_den bs poses items : Forall2 (den bs) poses items ->
+  forall data, build_scalar_array_w bs poses data = Ok (build_array_items data items).
+Proof.
+  intros HF data. unfold build_scalar_array_w, build_array_items. rewrite (array_parts_w_den bs poses items HF). cbn [bind].
+  change (enc (VArr items)) with (payload (VArr items)). rewrite payload_arr. unfold arr_hdr, header_word.
+  rewrite (Forall2_lenN _ _ _ HF). reflexivity.
+Qed.
+
+(* ---------------------------------------------------------------- the frontier walks *)
+Section WalkRel.
+  Variable bs : list N.
+  Variable few : position -> expr -> res bool.
+  Variable fet : value -> expr -> res bool.
+  Hypothesis Hfe : forall pos x e, den bs pos x -> res_rel eq (few pos e) (fet x e).
+
+  Lemma walk_rel : forall ps fr frv, Forall2 (den bs) fr frv ->
+    res_rel (Forall2 (den bs)) (walk_w bs few ps fr) (walk fet ps frv).
+  Proof.
+    induction ps as [|p ps IH]; intros fr frv HF; cbn [walk_w walk]; [exact HF|].
+    assert (Step : res_rel (Forall2 (den bs)) (do fr' <- flat_map_res (step_pos_w bs p) fr; walk_w bs few ps fr')
+                                               (do fr' <- flat_map_res (select_step p) frv; walk fet ps fr')).
+    { apply (res_rel_bind (Forall2 (den bs))); [|intros a b Hab; apply IH; exact Hab].
+      apply (flat_map_res_rel (den bs)); [exact HF|]. intros pos x D. apply step_pos_den. exact D. }
+    assert (Filt : forall e, res_rel (Forall2 (den bs)) (do fr' <- filter_res (fun pos => few pos e) fr; walk_w bs few ps fr')
+                                                        (do fr' <- filter_res (fun pos => fet pos e) frv; walk fet ps fr')).
+    { intros e. apply (res_rel_bind (Forall2 (den bs))); [|intros a b Hab; apply IH; exact Hab].
+      apply (filter_res_rel (den bs)); [exact HF|]. intros pos x D. apply Hfe. exact D. }
+    destruct p; try exact Step; try apply Filt; apply IH; exact HF.
+  Qed.
+End WalkRel.
+
+Lemma walk_operand_rel bs : forall ps fr frv, Forall2 (den bs) fr frv ->
+  res_rel (Forall2 (den bs)) (walk_operand_w bs ps fr) (walk_operand ps frv).
+Proof.
+  induction ps as [|p ps IH]; intros fr frv HF; cbn [walk_operand_w walk_operand]; [exact HF|].
+  assert (Step : res_rel (Forall2 (den bs)) (do fr' <- flat_map_res (step_pos_w bs p) fr; walk_operand_w bs ps fr')
+                                             (do fr' <- flat_map_res (select_step p) frv; walk_operand ps fr')).
+  { apply (res_rel_bind (Forall2 (den bs))); [|intros a b Hab; apply IH; exact Hab].
+    apply (flat_map_res_rel (den bs)); [exact HF|]. intros pos x D. apply step_pos_den. exact D. }
+  destruct p; try exact Step; exact I.
+Qed.
+
+(* convert_expr_val: the payload of a scalar position read back as a PathValue *)
+Lemma pvalues_of_den bs fr items : Forall2 (den bs) fr items ->
+  pvalues_of bs fr = Ok (flat_map (fun x => match scalar_pvalue x with Some v => [v] | None => [] end) items).
+Proof.
+  induction 1 as [|pos x fr items D HF IH]; cbn [pvalues_of flat_map]; [reflexivity|].
+  destruct D as (Hw & Hn & Hm). destruct pos as [off len|ty off len].
+  - destruct Hm as (Hc & _). rewrite IH. destruct x; try discriminate Hc; reflexivity.
+  - destruct Hm as (Hc & -> & Hp & ->). destruct (tag_tests x) as (T1 & T2 & T3 & T4 & T5 & _).
+    rewrite T1, T2, T3, T4, T5, IH. pose proof (placed_slice bs x off Hp) as S.
+    destruct x as [|[]|s|n|l|o]; try discriminate Hc; try reflexivity.
+    + rewrite S. reflexivity.
+    + rewrite S. cbn [bind]. change (payload (VNum n)) with (compact_encode n).
+      assert (R : num_in_range n = true) by (unfold wfb in Hw; apply andb_true_iff in Hw; apply Hw).
+      rewrite (num_roundtrip n R). cbn [normalise] in Hn. injection Hn as Hn. rewrite Hn. reflexivity.
+Qed.
+
+(* root_position on a canonical encoding denotes the document *)
+Lemma root_position_den root : good root -> den (enc root) (root_position_w (enc root)) root.
+Proof.
+  intros [Hw Hn]. pose proof (wfb_size root Hw) as Hs. unfold root_position_w. destruct (is_container root) eqn:Hc.
+  - assert (R : exists h, read_u32 (enc root) 0 = Some h /\ (hdr_type h =? SCALAR_CONTAINER_TAG) = false).
+    { rewrite (container_doc root Hc). change 0 with (lenN (@nil N)). replace (payload root) with ([] ++ payload root ++ []) by (rewrite app_nil_r; reflexivity).
+      destruct root as [| | | |l|o]; try discriminate Hc.
+      - destruct (wf_arr l Hw) as [_ Hl]. exists (arr_hdr l). rewrite (read_hdr_arr [] l [] Hl). destruct (arr_hdr_facts l Hl) as (_ & -> & _). split; reflexivity.
+      - destruct (wf_obj o Hw) as (_ & Hl & _). exists (obj_hdr o). rewrite (read_hdr_obj [] o [] Hl). destruct (obj_hdr_facts o Hl) as (_ & -> & _). split; reflexivity. }
+    destruct R as (h & -> & ->). split; [exact Hw|]. split; [exact Hn|]. split; [exact Hc|]. split; [apply placed_container_doc; exact Hc|].
+    rewrite (container_doc root Hc). reflexivity.
+  - rewrite (scalar_hdr root Hc). change (hdr_type SCALAR_CONTAINER_TAG =? SCALAR_CONTAINER_TAG) with true. cbv iota.
+    assert (R : read_u32 (enc root) 4 = Some (word root)).
+    { rewrite (scalar_doc root Hc). change 4 with (lenN (be32 SCALAR_CONTAINER_TAG)). apply read_u32_mid. apply word_bound. exact Hs. }
+    rewrite R, (word_type root Hs), (word_len root Hs). destruct (tag_tests root) as (_ & _ & _ & _ & _ & T). rewrite T.
+    assert (Ec : match root with VArr _ | VObj _ => true | _ => false end = false) by (destruct root; try discriminate Hc; reflexivity).
+    rewrite Ec. cbn [negb]. split; [exact Hw|]. split; [exact Hn|]. split; [exact Hc|]. split; [reflexivity|]. split; [apply placed_scalar_doc; exact Hc|reflexivity].
+Qed.
+
+Section OnRoot.
+  Variable root : value.
+  Hypothesis Hroot : good root.
+  Let bs := enc root.
+
+  Lemma expr_values_rel pos x e : den bs pos x -> res_rel eq (expr_values_w bs pos e) (expr_values root x e).
+  Proof.
+    intros D. destruct e as [ps|v| | | |]; cbn [expr_values_w expr_values]; try exact I; [|reflexivity].
+    apply (res_rel_bind (Forall2 (den bs))).
+    - apply walk_operand_rel. constructor; [|constructor].
+      pose proof (root_position_den root Hroot) as R. destruct ps as [|[] r]; try exact R; exact D.
+    - intros fr frv HF. rewrite (pvalues_of_den bs fr frv HF). reflexivity.
+  Qed.
+
+  Definition cur_rel (c : option position) (cv : option value) : Prop :=
+    match c, cv with Some p, Some x => den bs p x | None, None => True | _, _ => False end.
+
+  (* find_positions / filter_expr on positions = find_positions / filter_expr on the denoted values, for every path
+     and every expression: results, errors and panics alike *)
+  Theorem find_filter_rel : forall fuel,
+    (forall cur curv ps, cur_rel cur curv ->
+       res_rel (Forall2 (den bs)) (find_positions_w fuel bs cur ps) (find_positions fuel root curv ps)) /\
+    (forall pos x e, den bs pos x -> res_rel eq (filter_expr_w fuel bs pos e) (filter_expr fuel root x e)).
+  Proof.
+    induction fuel as [|f [IHp IHe]]; (split; [intros cur curv ps Hc|intros pos x e D]); try reflexivity.
+    - cbn [find_positions_w find_positions]. apply (res_rel_bind (den bs)).
+      + pose proof (root_position_den root Hroot) as R. destruct ps as [|[] r]; try exact R.
+        destruct cur, curv; cbn [cur_rel] in Hc; try contradiction; exact Hc.
+      + intros st stv Hst. apply (walk_rel bs _ _ IHe). constructor; [exact Hst|constructor].
+    - cbn [filter_expr_w filter_expr].
+      assert (Cmp : forall op l r, res_rel eq
+                (do a <- expr_values_w bs pos l; do b <- expr_values_w bs pos r; exists_res (fun u => exists_res (fun w => compare_value op u w) b) a)
+                (do a <- expr_values root x l; do b <- expr_values root x r; exists_res (fun u => exists_res (fun w => compare_value op u w) b) a)).
+      { intros op l r. rewrite (res_rel_eq _ _ (expr_values_rel pos x l D)), (res_rel_eq _ _ (expr_values_rel pos x r D)). apply res_rel_refl. }
+      destruct e as [ps|v|op l r|op y|op l r|ps]; try reflexivity.
+      + destruct op; try apply Cmp;
+          (apply (res_rel_bind eq); [apply IHe; exact D|]; intros a ? <-;
+           apply (res_rel_bind eq); [apply IHe; exact D|]; intros b ? <-; reflexivity).
+      + apply (res_rel_bind (Forall2 (den bs))); [apply IHp; exact D|].
+        intros fr frv HF. cbn [res_rel]. destruct HF; reflexivity.
+  Qed.
+End OnRoot.
+
+(* ---------------------------------------------------------------- normalised documents *)
+Lemma normalise_num_idem n : normalise_num (normalise_num n) = normalise_num n.
+Proof.
+  destruct n as [z|u|b]; cbn [normalise_num]; [| reflexivity |].
+  - destruct (z =? 0)%Z eqn:E; cbn [normalise_num]; [reflexivity|rewrite E; reflexivity].
+  - destruct (f_is_nan b) eqn:E; cbn [normalise_num]; [change (f_is_nan F_NAN) with true; reflexivity|rewrite E; reflexivity].
+Qed.
+Lemma normalise_idem v : normalise (normalise v) = normalise v.
+Proof.
+  induction v as [|b|s|n|l IH|o IH] using value_ind2; cbn [normalise]; try reflexivity.
+  - rewrite normalise_num_idem. reflexivity.
+  - f_equal. rewrite map_map. apply map_ext_in. intros x Hx. rewrite Forall_forall in IH. apply IH. exact Hx.
+  - f_equal. rewrite map_map. apply map_ext_in. intros kv Hkv. cbn [fst snd]. rewrite Forall_forall in IH. rewrite (IH kv Hkv). reflexivity.
+Qed.
+Lemma forallb_map_ext {A} (p : A -> bool) (f : A -> A) l : Forall (fun x => p (f x) = p x) l -> forallb p (map f l) = forallb p l.
+Proof. induction 1 as [|x l Hx _ IH]; cbn [map forallb]; [reflexivity|]. rewrite Hx, IH. reflexivity. Qed.
+Lemma wf_size_normalise v : wf_size (normalise v) = wf_size v.
+Proof.
+  induction v as [|b|s|n|l IH|o IH] using value_ind2; try reflexivity.
+  - change (normalise (VArr l)) with (VArr (map normalise l)). cbn [wf_size].
+    change (VArr (map normalise l)) with (normalise (VArr l)). rewrite enc_item_normalise, lenN_map.
+    rewrite (forallb_map_ext wf_size normalise l IH). reflexivity.
+  - change (normalise (VObj o)) with (VObj (map (fun kv => (fst kv, normalise (snd kv))) o)). cbn [wf_size].
+    change (VObj (map (fun kv => (fst kv, normalise (snd kv))) o)) with (normalise (VObj o)). rewrite enc_item_normalise, lenN_map.
+    rewrite (forallb_map_ext (fun kv : list N * value => (lenN (fst kv) <? 268435456) && wf_size (snd kv)) (fun kv => (fst kv, normalise (snd kv))) o).
+    + reflexivity.
+    + eapply Forall_impl; [|exact IH]. intros kv H. cbn [fst snd]. rewrite H. reflexivity.
+Qed.
+Lemma good_normalise v : wfb v = true -> good (normalise v).
+Proof.
+  intros H. unfold wfb in H. apply andb_true_iff in H. destruct H as [H1 H2]. split; [|apply normalise_idem].
+  unfold wfb. rewrite (TreeWf.wf_normalise v H1), wf_size_normalise, H2. reflexivity.
+Qed.
+
+Lemma Forall2_firstn {A B} (R : A -> B -> Prop) n : forall l l', Forall2 R l l' -> Forall2 R (firstn n l) (firstn n l').
+Proof. induction n as [|n IH]; intros l l' H; [constructor|]. destruct H; cbn [firstn]; constructor; auto. Qed.
+Lemma Forall2_len {A B} (R : A -> B -> Prop) l l' : Forall2 R l l' -> length l = length l'.
+Proof. induction 1; cbn [length]; congruence. Qed.
+
+(* ---------------------------------------------------------------- the theorems *)
+Section Final.
+  Variable root : value.
+  Hypothesis Hroot : good root.
+
+  Theorem find_positions_w_good ps :
+    res_rel (Forall2 (den (enc root))) (find_positions_w PATH_FUEL (enc root) None ps) (find_positions PATH_FUEL root None ps).
+  Proof. pose proof (find_filter_rel root Hroot PATH_FUEL) as [H _]. apply (H None None ps). exact I. Qed.
+
+  Theorem select_w_good ps m buf : select_w (enc root) ps m buf = select_t root ps m buf.
+  Proof.
+    unfold select_w, select_t. pose proof (find_positions_w_good ps) as R.
+    destruct (find_positions_w PATH_FUEL (enc root) None ps) as [poses|e|], (find_positions PATH_FUEL root None ps) as [items|e'|];
+      cbn [res_rel] in R; try contradiction; cbn [bind]; [|congruence|reflexivity].
+    destruct (is_predicate ps).
+    - unfold build_predicate_result_w. destruct R; cbn [enc enc_item fst snd]; rewrite app_nil_r; reflexivity.
+    - destruct m.
+      + rewrite (build_values_w_den _ _ _ (Forall2_firstn _ 1 _ _ R)). reflexivity.
+      + rewrite (build_scalar_array_w_den _ _ _ R). reflexivity.
+      + rewrite (build_values_w_den _ _ _ R). reflexivity.
+      + rewrite (Forall2_len _ _ _ R). destruct (1 <? length items)%nat.
+        * rewrite (build_scalar_array_w_den _ _ _ R). reflexivity.
+        * rewrite (build_values_w_den _ _ _ R). reflexivity.
+  Qed.
+
+  Theorem sel_exists_w_good ps : sel_exists_w (enc root) ps = exists_t root ps.
+  Proof.
+    unfold sel_exists_w, exists_t. destruct (is_predicate ps); [reflexivity|]. pose proof (find_positions_w_good ps) as R.
+    destruct (find_positions_w PATH_FUEL (enc root) None ps) as [poses|e|], (find_positions PATH_FUEL root None ps) as [items|e'|];
+      cbn [res_rel] in R; try contradiction; cbn [bind]; [|congruence|reflexivity].
+    destruct R; reflexivity.
+  Qed.
+
+  Theorem sel_predicate_match_w_good ps : sel_predicate_match_w (enc root) ps = predicate_match_t root ps.
+  Proof.
+    unfold sel_predicate_match_w, predicate_match_t. destruct (negb (is_predicate ps)); [reflexivity|]. pose proof (find_positions_w_good ps) as R.
+    destruct (find_positions_w PATH_FUEL (enc root) None ps) as [poses|e|], (find_positions PATH_FUEL root None ps) as [items|e'|];
+      cbn [res_rel] in R; try contradiction; cbn [bind]; [|congruence|reflexivity].
+    destruct R; reflexivity.
+  Qed.
+End Final.
+
+(* on the encoding of ANY well-formed value the selector answers as the tree evaluator does on the decoded document
+   (normalise v: what parse_jsonb (enc v) returns) — every path, every expression, every mode; errors and panics of
+   the tree evaluator are reproduced exactly, so no restriction to the parser's image is needed *)
+Theorem select_w_enc v ps m buf : wfb v = true -> select_w (enc v) ps m buf = select_t (normalise v) ps m buf.
+Proof. intros H. rewrite <- (enc_normalise v). apply select_w_good. apply good_normalise. exact H. Qed.
+Theorem sel_exists_w_enc v ps : wfb v = true -> sel_exists_w (enc v) ps = exists_t (normalise v) ps.
+Proof. intros H. rewrite <- (enc_normalise v). apply sel_exists_w_good. apply good_normalise. exact H. Qed.
+Theorem sel_predicate_match_w_enc v ps : wfb v = true -> sel_predicate_match_w (enc v) ps = predicate_match_t (normalise v) ps.
+Proof. intros H. rewrite <- (enc_normalise v). apply sel_predicate_match_w_good. apply good_normalise. exact H. Qed.
+
+(* the walker model and the view-level model of Dispatch.v agree on encodings *)
+Theorem select_w_m v ps m buf : wfb v = true -> select_w (enc v) ps m buf = select_m (enc v) ps m buf.
+Proof. intros H. unfold select_m. rewrite (parse_jsonb_enc v H). cbn [bind]. apply select_w_enc. exact H. Qed.
+Theorem sel_exists_w_m v ps : wfb v = true -> sel_exists_w (enc v) ps = sel_exists_m (enc v) ps.
+Proof. intros H. unfold sel_exists_m. rewrite (parse_jsonb_enc v H). cbn [bind]. apply sel_exists_w_enc. exact H. Qed.
+Theorem sel_predicate_match_w_m v ps : wfb v = true -> sel_predicate_match_w (enc v) ps = sel_predicate_match_m (enc v) ps.
+Proof. intros H. unfold sel_predicate_match_m. rewrite (parse_jsonb_enc v H). cbn [bind]. apply sel_predicate_match_w_enc. exact H. Qed.
+
+(* the public functions *)
+Theorem get_by_path_gen_w_enc md v ps buf : wfb v = true -> top_ok v ->
+  get_by_path_gen_w md (enc v) ps buf = select_t (normalise v) ps md buf.
+Proof. intros H T. unfold get_by_path_gen_w. rewrite (is_jsonb_enc v H T). apply select_w_enc. exact H. Qed.
+Theorem path_exists_w_enc v ps : wfb v = true -> top_ok v -> path_exists_w (enc v) ps = exists_t (normalise v) ps.
+Proof. intros H T. unfold path_exists_w. rewrite (is_jsonb_enc v H T). apply sel_exists_w_enc. exact H. Qed.
+Theorem path_match_w_enc v ps : wfb v = true -> top_ok v -> path_match_w (enc v) ps = predicate_match_t (normalise v) ps.
+Proof. intros H T. unfold path_match_w. rewrite (is_jsonb_enc v H T). apply sel_predicate_match_w_enc. exact H. Qed.
+
+(* no error and no panic on paths of the parser's image whose steps are plain: from the tree-level theorem *)
+Theorem select_w_frame v ps m pre : wfb v = true ->
+  select_w (enc v) ps m pre = ModeProofs.shift_result pre (select_w (enc v) ps m []).
+Proof. intros H. rewrite !(select_w_enc v ps m _ H). apply ModeProofs.select_frame. Qed.
